@@ -4,6 +4,7 @@ import (
 	"bytes"
 	"fmt"
 	"reflect"
+	"strings"
 	"testing"
 
 	"github.com/free5gc/ike/eap"
@@ -937,6 +938,74 @@ var c19Sequence = probe.Define("C19", "sequence", func(t *rapid.T) c19SeqIn {
 	return probe.Outcome{NonTrivial: len(all) >= 2, Labels: labels}
 })
 
+// Limits: what does not fit a field of the wire format is refused by the builder or by the encoder - never cut, wrapped or
+// sent with a count that is not the number of elements. Proposals with their transforms spread over the five lists (the
+// count octet holds 255 in all), Delete payloads with more SPIs than a payload can carry.
+type c19LimitIn struct {
+	Transforms [5]int `json:"transforms_per_type,omitempty"`
+	SPIs       int    `json:"delete_spis,omitempty"`
+}
+
+var c19Limits = probe.Define("C19", "limits", func(t *rapid.T) c19LimitIn { panic("enumerated") }, func(in c19LimitIn) probe.Outcome {
+	if in.SPIs > 0 {
+		var c message.IKEPayloadContainer
+		spis := make([]uint32, in.SPIs)
+		for i := range spis {
+			spis[i] = uint32(i)*2654435761 + 1
+		}
+		if err := probe.Try(func() error { c.BuildDeletePayload(3, 4, uint16(in.SPIs), append([]uint32(nil), spis...)); return nil }); err != nil {
+			return probe.Fail("BuildDeletePayload with %d SPIs: %v", in.SPIs, err)
+		}
+		if len(c) != 1 {
+			return probe.Fail("BuildDeletePayload appended %d payloads", len(c))
+		}
+		w, err := c19Wire(c[0])
+		fits := 8+4*in.SPIs <= 65535 && in.SPIs <= 65535
+		switch {
+		case err != nil && strings.HasPrefix(err.Error(), "REFPARSE"):
+			return probe.Fail("a Delete payload with %d SPIs encodes without an error to something malformed: %v", in.SPIs, err)
+		case probe.IsPanic(err):
+			return probe.Fail("encoding a Delete payload with %d SPIs panics: %v", in.SPIs, err)
+		case err == nil && !fits:
+			return probe.Fail("a Delete payload with %d SPIs of 4 octets (%d octets, more than a payload holds) encodes without an error: the list was cut or the length wrapped", in.SPIs, 8+4*in.SPIs)
+		case err != nil && fits:
+			return probe.Fail("a Delete payload with %d SPIs (fits) does not encode: %v", in.SPIs, err)
+		case err == nil:
+			if w.Delete == nil || len(w.Delete.SPIs) != in.SPIs || int(w.Delete.Count) != in.SPIs || w.Delete.SPIs[in.SPIs-1] != spis[in.SPIs-1] {
+				return probe.Fail("a Delete payload with %d SPIs encodes to other SPIs than it was given", in.SPIs)
+			}
+		}
+		return probe.OK(true, "limits:delete", fmt.Sprintf("fits:%v", fits))
+	}
+	var pc message.ProposalContainer
+	p := pc.BuildProposal(1, 3, []byte{1, 2, 3, 4})
+	total := 0
+	lists := []*message.TransformContainer{&p.EncryptionAlgorithm, &p.PseudorandomFunction, &p.IntegrityAlgorithm, &p.DiffieHellmanGroup, &p.ExtendedSequenceNumbers}
+	for ty, n := range in.Transforms {
+		for i := 0; i < n; i++ {
+			lists[ty].BuildTransform(uint8(ty+1), uint16(i), nil, nil, nil)
+		}
+		total += n
+	}
+	w, err := c19Wire(&message.SecurityAssociation{Proposals: pc})
+	fits := total >= 1 && total <= 255
+	switch {
+	case err != nil && strings.HasPrefix(err.Error(), "REFPARSE"):
+		return probe.Fail("a proposal with %d transforms in all (%v per type) encodes without an error to something malformed: %v", total, in.Transforms, err)
+	case probe.IsPanic(err):
+		return probe.Fail("encoding a proposal with %v transforms panics: %v", in.Transforms, err)
+	case err == nil && !fits:
+		return probe.Fail("a proposal with %d transforms in all (%v per type; the count octet holds 255) encodes without an error", total, in.Transforms)
+	case err != nil && fits:
+		return probe.Fail("a proposal with %d transforms in all (%v per type) does not encode: %v", total, in.Transforms, err)
+	case err == nil:
+		if w.SA == nil || len(w.SA.Proposals) != 1 || len(w.SA.Proposals[0].Transforms) != total {
+			return probe.Fail("a proposal with %d transforms (%v per type) encodes to another number of transforms", total, in.Transforms)
+		}
+	}
+	return probe.OK(true, "limits:transforms", fmt.Sprintf("fits:%v", fits))
+})
+
 func TestC19(t *testing.T) {
 	c := probe.NewCtx(t, "C19")
 	for _, k := range c19Containers {
@@ -956,4 +1025,16 @@ func TestC19(t *testing.T) {
 		}
 	}
 	c19Sequence.Run(c, t, c.N(600, 6000))
+	for _, tr := range [][5]int{{255}, {256}, {255, 1}, {200, 56}, {200, 55}, {100, 100, 55}, {100, 100, 56}, {51, 51, 51, 51, 51}, {52, 51, 51, 51, 51}, {0, 0, 0, 0, 255}, {1, 0, 0, 0, 255}, {300}, {255, 255}, {128, 128}} {
+		c19Limits.Eval(c, c19LimitIn{Transforms: tr})
+	}
+	for _, n := range []int{1, 255, 256, 4096, 8192, 16381, 16382, 16383, 16384, 16385, 20000, 32768, 32769, 49152, 65535} {
+		c19Limits.Eval(c, c19LimitIn{SPIs: n})
+	}
+	// configuration attributes of the registered types with the value sizes that mean something for one of them
+	for ty := uint16(1); ty <= 25; ty++ {
+		for _, n := range []int{0, 1, 4, 8, 16, 17, 32} {
+			c19Build.Eval(c, c19In{Builder: "ConfigurationAttribute", U16a: ty, B1: pat(n, byte(ty)), U8a: uint8(n)})
+		}
+	}
 }
